@@ -294,6 +294,13 @@ def sweep(ck, pool, files, cfgs, nclasses, include, stream):
 
 
 # ----------------------------------------------------------------------------------------- leg T
+DSEQ_WITNESS = [(1, 2), (2, 3), (3, 5), (5, 3), (3, 2), (2, 4), (1, 4)]
+DSEQ_FIXED = [
+    (DSEQ_WITNESS, [1, 2, 3, 4, 5]),
+    (DSEQ_WITNESS, [1, 4, 2, 3, 5]),
+    ([(1, 2), (1, 3), (2, 3), (3, 2)], [1, 2, 3]),
+    ([(1, 2), (2, 3), (3, 4), (4, 3), (4, 2), (2, 5)], [1, 2, 3, 4, 5]),
+]
 def csv(xs):
     return ",".join(str(x) for x in xs) or "-"
 
@@ -409,6 +416,26 @@ def gen_site_cases(ck, n):
         order = list(range(1, nv + 1)); rng.shuffle(order)
         add({"op": "intv", "edges": edges, "nodes": order, "entry": 1},
             "intv %s %s 1" % (",".join("%d>%d" % e for e in edges) or "-", csv(order)))
+        # derived_sequence(graph) on a rooted graph of the same family (up to 13 nodes, denser): every level is
+        # compared — interv_heads with contents, the recorded interval-graph edges, reverse_edges, rpo, entry —
+        # with interval nodes named by their position in interval_graph.nodes
+        for _k in range(2):
+            nv = rng.randrange(1, 14)
+            edges = [(rng.randrange(1, i), i) for i in range(2, nv + 1)]
+            for _e in range(rng.randrange(0, nv + 4)):
+                e = (rng.randrange(1, nv + 1), rng.randrange(1, nv + 1))
+                if e not in edges:
+                    edges.append(e)
+            rng.shuffle(edges)
+            order = list(range(1, nv + 1)); rng.shuffle(order)
+            add({"op": "dseq", "edges": edges, "nodes": order, "entry": 1},
+                "dseq %s %s 1" % (",".join("%d>%d" % e for e in edges) or "-", csv(order)))
+    # fixed cases: the witnesses of Props/C22.lean (`derived_sequence_nodes_order_matters`: same graph, two
+    # insertion orders of graph.nodes, 2 resp. 3 intervals at the second level; the irreducible triangle that
+    # collapses because the edge 2>3 is not recorded; a loop nest)
+    for edges, order in DSEQ_FIXED:
+        add({"op": "dseq", "edges": edges, "nodes": order, "entry": 1},
+            "dseq %s %s 1" % (",".join("%d>%d" % tuple(e) for e in edges) or "-", csv(order)))
     return cases, reqs
 
 
